@@ -4,6 +4,8 @@ import S2T.Props.C12_Amplify
 import S2T.Props.C12_Xml
 import S2T.Props.C12_LoopsSrc
 import S2T.Props.C12_Archive
+import S2T.Props.C12_History
+import S2T.Props.C12_Inflate
 /-!
 # C12 — extraction cost is bounded by the input; explicit limits hold
 
@@ -32,6 +34,12 @@ Parts:
   installed defusedxml's defaults, `except` handlers, stripped data): text ≤ part size for every part under every
   chain of refusing parsers, every generated stage refuses, unboundedness + witnesses for a chain with one lenient stage.
 
+* `Props/C12_History.lean` (namespace `S2T.C12.History`): histories call / resize / consume of `read_file` on one path: comparison and
+  read in the same activation ⇒ every read within the limit in every history; comparison at the call and read at consumption ⇒ unbounded;
+  the activations of the current source are generated (tools/gen/c12_sites.py).
+* `Props/C12_Inflate.lean` (namespace `S2T.C12.Inflate`): compressed streams whose trailer understates them (multi-member gzip, ISIZE mod 2^32):
+  trailer guard + one-shot inflation is unbounded, a bounded read is exact; closed-world inventory of every container opener / decompression
+  call of archive_extractor.py (generated).
 * `Props/C12_Archive.lean` (namespace `S2T.C12.Archive`): archives whose member NAMES repeat (the size tested and the payload
   read belong to the same entry iff the payload is fetched through the entry's own handle; by name it is the LAST entry of
   that name — equal for distinct names, an oversize member otherwise; the read sites of the ZIP / TAR loops are generated)
